@@ -1,0 +1,51 @@
+//! A corrupt length prefix inside a snapshot is an error, not a panic or an abort.
+
+use grafeo_engine::GrafeoDB;
+
+fn from_hex(s: &str) -> Vec<u8> {
+    (0..s.len() / 2)
+        .map(|i| u8::from_str_radix(&s[2 * i..2 * i + 2], 16).unwrap())
+        .collect()
+}
+
+#[test]
+fn lying_string_lengths_are_rejected() {
+    for hex in [
+        // one node, one label whose length prefix claims 2^64 - 1 bytes
+        "01010001fdffffffffffffffff",
+        // the same with a length of 2^62 (used to abort in the allocator)
+        "01010001fd0000000000000040",
+        "0101000001fdffffffffffffffff",
+        "010001000000fdffffffffffffffff",
+    ] {
+        let bytes = from_hex(hex);
+        assert!(GrafeoDB::import_snapshot(&bytes).is_err(), "{hex}");
+    }
+}
+
+#[test]
+fn large_valid_snapshot_still_imports() {
+    let db = GrafeoDB::new_in_memory();
+    let big = "x".repeat(70_000);
+    for i in 0..40 {
+        let n = db.create_node(&["Label"]);
+        db.set_node_property(n, "text", grafeo_common::types::Value::String(big.clone().into()));
+        db.set_node_property(n, "i", grafeo_common::types::Value::Int64(i));
+    }
+    let bytes = db.export_snapshot().unwrap();
+    assert!(bytes.len() > 1 << 21);
+    let restored = GrafeoDB::import_snapshot(&bytes).unwrap();
+    assert_eq!(restored.node_count(), 40);
+}
+
+#[test]
+fn many_small_nodes_still_import() {
+    // every one-byte varint is charged as eight bytes against the decode budget
+    let db = GrafeoDB::new_in_memory();
+    for _ in 0..5000 {
+        db.create_node(&[]);
+    }
+    let bytes = db.export_snapshot().unwrap();
+    let restored = GrafeoDB::import_snapshot(&bytes).unwrap();
+    assert_eq!(restored.node_count(), 5000);
+}
